@@ -13,6 +13,47 @@ ASSUMPTIONS = [
 NAMING = (".NAME", "EDIF.identifier", ".NS")
 
 
+def one_round(n, tag, probs):
+    """uniquify + flatten once with every clause of the property; ("ok" | "raised", non-trivial)."""
+    from spydrnet.uniquify import uniquify
+    from spydrnet.flatten import flatten
+    e0 = elab.Elab(n)
+    part0 = e0.endpoint_partition()
+    leaves0 = {}
+    for p in e0.leaf_paths():
+        x = p[-1]
+        leaves0[e0.pname(p)] = (x.reference, {k: core.freeze(v) for k, v in x.data.items() if k not in NAMING})
+    nontriv = _hier.crosses_boundary(e0)
+    try:
+        uniquify(n)
+        flatten(n)
+    except Exception as ex:
+        probs.append(("flatten-raised:%s:%s" % (type(ex).__name__, tag), repr(ex)))
+        return ("raised", nontriv)
+    top = n.top_instance.reference
+    kids = list(top.children)
+    names = [x.name for x in kids]
+    if sorted(map(str, names)) != sorted(leaves0):
+        probs.append(("leaf-instances-differ:" + tag, "expected %s got %s" % (sorted(leaves0), sorted(map(str, names)))))
+    for x in kids:
+        r = x.reference
+        if r is None or not elab.is_leaf_def(r):
+            probs.append(("hierarchical-instance-remains:" + tag, "%s of %s" % (x.name, r.name if r else None)))
+        if x.name in leaves0:
+            r0, d0 = leaves0[x.name]
+            if r is not r0:
+                probs.append(("leaf-definition-changed:" + tag, "%s: %s -> %s" % (x.name, r0.name, r.name if r else None)))
+            d1 = {k: core.freeze(v) for k, v in x.data.items() if k not in NAMING}
+            if d1 != d0:
+                probs.append(("leaf-data-changed:" + tag, "%s: %s -> %s" % (x.name, d0, d1)))
+    part1 = elab.flat_partition(n)
+    if part1 != part0:
+        probs.append(("connectivity-changed:" + tag, "before %s after %s" % (_hier.fmt_part(part0), _hier.fmt_part(part1))))
+    for c, d in wf.wf_netlist(n):
+        probs.append(("malformed-after-flatten:%s:%s" % (c, tag), d))
+    return ("ok", nontriv)
+
+
 def worker(case):
     probs = []
     variant = case[2] if len(case) > 2 else None
@@ -44,41 +85,26 @@ def worker(case):
 
     key = _hier.key_of(case, n)
     tag = "%s:%s" % (case[0][0], case[2] if len(case) > 2 else case[0][2])
-    e0 = elab.Elab(n)
-    part0 = e0.endpoint_partition()
-    leaves0 = {}
-    for p in e0.leaf_paths():
-        x = p[-1]
-        leaves0[e0.pname(p)] = (x.reference, {k: core.freeze(v) for k, v in x.data.items() if k not in NAMING})
-    nontriv = _hier.crosses_boundary(e0)
-    try:
-        uniquify(n)
-        flatten(n)
-    except Exception as ex:
-        probs.append(("flatten-raised:%s:%s" % (type(ex).__name__, tag), repr(ex)))
-        return {"key": key, "nontrivial": nontriv, "outcome": "raised", "problems": probs, "transitions": 1}
-    top = n.top_instance.reference
-    kids = list(top.children)
-    names = [x.name for x in kids]
-    if sorted(map(str, names)) != sorted(leaves0):
-        probs.append(("leaf-instances-differ:" + tag, "expected %s got %s" % (sorted(leaves0), sorted(map(str, names)))))
-    for x in kids:
-        r = x.reference
-        if r is None or not elab.is_leaf_def(r):
-            probs.append(("hierarchical-instance-remains:" + tag, "%s of %s" % (x.name, r.name if r else None)))
-        if x.name in leaves0:
-            r0, d0 = leaves0[x.name]
-            if r is not r0:
-                probs.append(("leaf-definition-changed:" + tag, "%s: %s -> %s" % (x.name, r0.name, r.name if r else None)))
-            d1 = {k: core.freeze(v) for k, v in x.data.items() if k not in NAMING}
-            if d1 != d0:
-                probs.append(("leaf-data-changed:" + tag, "%s: %s -> %s" % (x.name, d0, d1)))
-    part1 = elab.flat_partition(n)
-    if part1 != part0:
-        probs.append(("connectivity-changed:" + tag, "before %s after %s" % (_hier.fmt_part(part0), _hier.fmt_part(part1))))
-    for c, d in wf.wf_netlist(n):
-        probs.append(("malformed-after-flatten:%s:%s" % (c, tag), d))
-    return {"key": key, "nontrivial": nontriv, "outcome": "ok", "problems": probs, "transitions": 1}
+    res = one_round(n, tag, probs)
+    if res[0] == "raised":
+        return {"key": key, "nontrivial": res[1], "outcome": "raised", "problems": probs, "transitions": 1}
+    if variant == "flat-block-reused":
+        # not from the initial state: the flattened cell is instantiated twice in a new top cell, one instance
+        # carrying the name of an instance inside (names repeat along a path), and everything is flattened again
+        s = core.sdn()
+        old_top = n.top_instance.reference
+        inner = next((x.name.split("/")[0] for x in old_top.children if x.name and "/" in x.name), "ua")
+        tt = old_top.library.create_definition(name="TT")
+        tt.create_child(name=inner, reference=old_top)
+        tt.create_child(name="other", reference=old_top)
+        former = n.top_instance
+        n.top_instance = tt
+        n.top_instance.name = "tt"
+        former.reference = None     # (the former top instance would otherwise linger in the old top cell's reference set)
+        res2 = one_round(n, tag + ":round-2", probs)
+        if res2[0] == "raised":
+            return {"key": key, "nontrivial": True, "outcome": "raised", "problems": probs, "transitions": 2}
+    return {"key": key, "nontrivial": res[1], "outcome": "ok", "problems": probs, "transitions": 1}
 
 
 engine_b.WORKERS[ID] = worker
@@ -93,6 +119,8 @@ def cases(tier):
             out.append((desc, "asc", "edif-identifiers"))
             out.append((desc, "asc", "edif-identifiers-taken"))
             out.append((desc, "asc", "other-policy-in-force"))
+        if desc[0] in ("K1-chain2", "K8-bus", "K5-chain3") and (tier == "thorough" or sum(desc[1]) % 4 == 0):
+            out.append((desc, "asc", "flat-block-reused"))
     return out
 
 
